@@ -140,7 +140,7 @@ def run(ctx, prop):
     ctx.notes["violation_classes"] = classes
     ctx.assumptions += [
         "file content is a function of the path below the transfer folder; files carry no resource/information side files (PreserveResourceForks off)",
-        "names are ASCII (plus one UTF-8 name in random scripts), at most 40 bytes, never ending in .incomplete; nothing hangs below a dot-named folder in TLC scripts (random scripts: 5%, judged as DRIFT only)",
+        "names are ASCII (plus one UTF-8 name in random scripts), at most 40 bytes, including names that end in or contain .incomplete and partial files next to their final name (a file x never next to an entry named x.incomplete in an uploaded tree: the server stores x's partial data under that name); nothing hangs below a dot-named folder in TLC scripts (random scripts: 5%, judged as DRIFT only)",
         "the reference client takes 'the bytes that follow' to be everything the server wrote until it blocked reading the connection again (state based, no timing)",
         "an upload is cut only inside the data section of one file; parents are streamed before their content",
         "transfers run over in-memory connections through the real handleFileTransfer; the 3 s courtesy sleep of the handler is not waited for (end of the handler body = removal of the transfer from FileTransferMgr)",
